@@ -8,5 +8,8 @@ sys.path.insert(0, "tools")
 import vlib
 vlib.build_lib("asan")
 vlib.build_driver("drv_data", ["drv_data.c", "acct.c"])
+vlib.build_driver("drv_url", ["drv_url.c", "acct.c"])
+vlib.build_driver("drv_aio", ["drv_aio.c", "dee.c", "acct.c"])
+vlib.build_lib("plain")
 PY
 echo setup-ok
